@@ -907,3 +907,412 @@ Proof.
   simpl. unfold keys. rewrite <- live_keys_are_resolving by exact H.
   rewrite map_length, live_consumers_sum by exact H. auto.
 Qed.
+
+(* ------------------------------------------------------------------ *)
+(* 4. the behaviours before the repairs, refuted on the original variant *)
+
+(* D5: Stream.Close did not touch the registry — a closed stream is still returned by Get *)
+Example closed_stream_returned_refuted :
+  exists ops,
+    hist_wf sinit ops = true /\
+    snd (grun roriginal rinit ops) = [RUnit; RUnit; RUnit; RGet (Some 0%nat)] /\
+    st_live (sget (fst (grun roriginal rinit ops)) 0) = false /\
+    srun sinit ops = [RUnit; RUnit; RUnit; RGet None] /\
+    ok_hist_C05 ops (snd (grun roriginal rinit ops)) = false.
+Proof.
+  exists [GNew [47;97] true; GRegist 0; GClose 0; GGet [47;97]]. vm_compute. auto.
+Qed.
+
+(* D7: the idle decision counted RTP consumers only — a stream with an FLV consumer is closed *)
+Example idle_close_ignores_flv_refuted :
+  exists ops,
+    hist_wf sinit ops = true /\
+    snd (grun roriginal rinit ops) = [RUnit; RUnit; RUnit; RIdle true] /\
+    st_live (sget (fst (grun roriginal rinit ops)) 0) = false /\
+    srun sinit ops = [RUnit; RUnit; RUnit; RIdle false] /\
+    ok_hist_C05 ops (snd (grun roriginal rinit ops)) = false.
+Proof.
+  exists [GNew [47;97] true; GRegist 0; GAttach 0 true; GIdle 0 false]. vm_compute. auto.
+Qed.
+
+(* ------------------------------------------------------------------ *)
+(* 5. the registration race (D6): publishers A and B register streams 1 and 2 on the path where
+   stream 0 may already be registered.  Repaired code: Regist = atomic Swap (install self, learn
+   the replaced stream), then — as a separate step — retire the replaced stream (no consumers
+   attached: Stream.close). *)
+
+Inductive pc := PStart | PSwapped (replaced : option nat) | PDone.
+
+(* the map part of GRegist as one atomic step *)
+Definition reg_swap (g : rstate) (i : nat) : rstate * option nat :=
+  let k := st_path (sget g i) in
+  ({| g_map := mstore (g_map g) k i; g_streams := g_streams g |}, mlookup (g_map g) k).
+
+Definition reg_retire (g : rstate) (i : nat) (r : option nat) : rstate :=
+  match r with
+  | Some j => if Nat.eqb i j then g else close_stream rfixed g j
+  | None => g
+  end.
+
+Definition tstep (g : rstate) (i : nat) (c : pc) : option (rstate * pc) :=
+  match c with
+  | PStart => let '(g', r) := reg_swap g i in Some (g', PSwapped r)
+  | PSwapped r => Some (reg_retire g i r, PDone)
+  | PDone => None
+  end.
+
+Record cfg := { c_g : rstate; c_a : pc; c_b : pc }.
+
+(* schedule element true = A moves, false = B moves; a finished thread's move is skipped *)
+Definition race_step (c : cfg) (b : bool) : cfg :=
+  if b then
+    match tstep (c_g c) 1 (c_a c) with
+    | Some (g', a') => {| c_g := g'; c_a := a'; c_b := c_b c |}
+    | None => c
+    end
+  else
+    match tstep (c_g c) 2 (c_b c) with
+    | Some (g', b') => {| c_g := g'; c_a := c_a c; c_b := b' |}
+    | None => c
+    end.
+
+Definition race_run (c : cfg) (sched : list bool) : cfg := fold_left race_step sched c.
+
+Definition mkstrm (p : bytes) (l h : bool) : strm :=
+  {| st_path := p; st_live := l; st_rtp := 0; st_flv := 0; st_retire := false; st_hls := h |}.
+
+(* three streams on path p; stream 0 is registered and live iff [reg0] (else it has been closed) *)
+Definition race_init (p : bytes) (h0 h1 h2 reg0 : bool) : cfg :=
+  {| c_g := {| g_map := if reg0 then [(p, 0%nat)] else [];
+               g_streams := [mkstrm p reg0 h0; mkstrm p true h1; mkstrm p true h2] |};
+     c_a := PStart; c_b := PStart |}.
+
+(* run without interleaving, swap then retire is GRegist (replaced stream without consumers) *)
+Lemma swap_retire_is_regist g i :
+  (i <? length (g_streams g))%nat = true ->
+  mlookup (g_map g) (st_path (sget g i)) <> Some i ->
+  (forall j, mlookup (g_map g) (st_path (sget g i)) = Some j -> consumers (sget g j) <= 0) ->
+  reg_retire (fst (reg_swap g i)) i (snd (reg_swap g i)) = fst (gstep rfixed g (GRegist i)).
+Proof.
+  intros Hi Hne Hc. unfold gstep, reg_swap, reg_retire. rewrite Hi. simpl.
+  destruct (mlookup (g_map g) (st_path (sget g i))) as [j|] eqn:Hm; [|reflexivity].
+  destruct (Nat.eqb i j) eqn:E.
+  - apply Nat.eqb_eq in E; subst j. exfalso; apply Hne; reflexivity.
+  - specialize (Hc j eq_refl). apply Z.leb_le in Hc.
+    change (sget {| g_map := mstore (g_map g) (st_path (sget g i)) i; g_streams := g_streams g |} j)
+      with (sget g j).
+    rewrite Hc. reflexivity.
+Qed.
+
+(* --- finite abstraction of the configurations the race can be in --- *)
+Inductive sid := S0 | S1 | S2.
+Definition nat_of (s : sid) : nat := match s with S0 => 0 | S1 => 1 | S2 => 2 end.
+Definition sid_eqb (a b : sid) : bool :=
+  match a, b with S0, S0 | S1, S1 | S2, S2 => true | _, _ => false end.
+
+Record ast := { a_hd : option sid; a_l0 : bool; a_l1 : bool; a_l2 : bool }.
+Inductive apc := AStart | ASwapped (replaced : option sid) | ADone.
+Record acfg := { a_s : ast; a_a : apc; a_b : apc }.
+
+Definition alive (s : ast) (j : sid) : bool :=
+  match j with S0 => a_l0 s | S1 => a_l1 s | S2 => a_l2 s end.
+Definition akill (s : ast) (j : sid) : ast :=
+  match j with
+  | S0 => {| a_hd := a_hd s; a_l0 := false; a_l1 := a_l1 s; a_l2 := a_l2 s |}
+  | S1 => {| a_hd := a_hd s; a_l0 := a_l0 s; a_l1 := false; a_l2 := a_l2 s |}
+  | S2 => {| a_hd := a_hd s; a_l0 := a_l0 s; a_l1 := a_l1 s; a_l2 := false |}
+  end.
+Definition aclose (s : ast) (j : sid) : ast :=
+  if alive s j then
+    let s' := akill s j in
+    match a_hd s with
+    | Some x => if sid_eqb j x
+                then {| a_hd := None; a_l0 := a_l0 s'; a_l1 := a_l1 s'; a_l2 := a_l2 s' |} else s'
+    | None => s'
+    end
+  else s.
+Definition aswap (s : ast) (i : sid) : ast * option sid :=
+  ({| a_hd := Some i; a_l0 := a_l0 s; a_l1 := a_l1 s; a_l2 := a_l2 s |}, a_hd s).
+Definition aretire (s : ast) (i : sid) (r : option sid) : ast :=
+  match r with Some j => if sid_eqb i j then s else aclose s j | None => s end.
+Definition atstep (s : ast) (i : sid) (c : apc) : option (ast * apc) :=
+  match c with
+  | AStart => let '(s', r) := aswap s i in Some (s', ASwapped r)
+  | ASwapped r => Some (aretire s i r, ADone)
+  | ADone => None
+  end.
+Definition astep (c : acfg) (b : bool) : acfg :=
+  if b then
+    match atstep (a_s c) S1 (a_a c) with
+    | Some (s', a') => {| a_s := s'; a_a := a'; a_b := a_b c |}
+    | None => c
+    end
+  else
+    match atstep (a_s c) S2 (a_b c) with
+    | Some (s', b') => {| a_s := s'; a_a := a_a c; a_b := b' |}
+    | None => c
+    end.
+Definition arun (c : acfg) (sched : list bool) : acfg := fold_left astep sched c.
+Definition ainit (reg0 : bool) : acfg :=
+  {| a_s := {| a_hd := if reg0 then Some S0 else None; a_l0 := reg0; a_l1 := true; a_l2 := true |};
+     a_a := AStart; a_b := AStart |}.
+
+Section RaceConc.
+Variable p : bytes.
+Variables h0 h1 h2 : bool.
+
+Definition gof (s : ast) : rstate :=
+  {| g_map := match a_hd s with Some x => [(p, nat_of x)] | None => [] end;
+     g_streams := [mkstrm p (a_l0 s) h0; mkstrm p (a_l1 s) h1; mkstrm p (a_l2 s) h2] |}.
+Definition conc_pc (c : apc) : pc :=
+  match c with
+  | AStart => PStart
+  | ASwapped r => PSwapped (option_map nat_of r)
+  | ADone => PDone
+  end.
+Definition conc (c : acfg) : cfg :=
+  {| c_g := gof (a_s c); c_a := conc_pc (a_a c); c_b := conc_pc (a_b c) |}.
+
+Lemma close_conc s j : close_stream rfixed (gof s) (nat_of j) = gof (aclose s j).
+Proof.
+  destruct s as [[[]|] [] [] []], j; unfold close_stream, gof;
+    repeat (cbn; rewrite ?bytes_eqb_refl); reflexivity.
+Qed.
+
+Lemma swap_conc s i :
+  reg_swap (gof s) (nat_of i) = (gof (fst (aswap s i)), option_map nat_of (snd (aswap s i))).
+Proof.
+  destruct s as [[[]|] l0 l1 l2], i; unfold reg_swap, gof, mstore, mdelete;
+    repeat (cbn; rewrite ?bytes_eqb_refl); reflexivity.
+Qed.
+
+Lemma nat_of_eqb i j : Nat.eqb (nat_of i) (nat_of j) = sid_eqb i j.
+Proof. destruct i, j; reflexivity. Qed.
+
+Lemma retire_conc s i r :
+  reg_retire (gof s) (nat_of i) (option_map nat_of r) = gof (aretire s i r).
+Proof.
+  destruct r as [j|]; simpl; [|reflexivity].
+  rewrite nat_of_eqb. destruct (sid_eqb i j); [reflexivity | apply close_conc].
+Qed.
+
+Lemma tstep_conc s i c :
+  tstep (gof s) (nat_of i) (conc_pc c) =
+  match atstep s i c with Some (s', c') => Some (gof s', conc_pc c') | None => None end.
+Proof.
+  destruct c as [|r|].
+  - unfold tstep, conc_pc. rewrite swap_conc. reflexivity.
+  - unfold tstep, conc_pc. rewrite retire_conc. reflexivity.
+  - reflexivity.
+Qed.
+
+Lemma step_conc c b : race_step (conc c) b = conc (astep c b).
+Proof.
+  unfold race_step, astep.
+  change (c_g (conc c)) with (gof (a_s c)).
+  change (c_a (conc c)) with (conc_pc (a_a c)). change (c_b (conc c)) with (conc_pc (a_b c)).
+  destruct b.
+  - pose proof (tstep_conc (a_s c) S1 (a_a c)) as H. change (nat_of S1) with 1%nat in H. rewrite H.
+    destruct (atstep (a_s c) S1 (a_a c)) as [[s' a']|]; reflexivity.
+  - pose proof (tstep_conc (a_s c) S2 (a_b c)) as H. change (nat_of S2) with 2%nat in H. rewrite H.
+    destruct (atstep (a_s c) S2 (a_b c)) as [[s' b']|]; reflexivity.
+Qed.
+
+Lemma run_conc sched : forall c, race_run (conc c) sched = conc (arun c sched).
+Proof.
+  induction sched as [|b sched IH]; intros c; simpl; auto. rewrite step_conc. apply IH.
+Qed.
+
+Lemma init_conc reg0 : race_init p h0 h1 h2 reg0 = conc (ainit reg0).
+Proof. destruct reg0; reflexivity. Qed.
+
+End RaceConc.
+
+(* --- the abstract system is finite: enumerate what is reachable, check that the set is closed
+       under steps and that every finished configuration in it is good --- *)
+Definition acfg_eq_dec : forall a b : acfg, {a = b} + {a <> b}.
+Proof. repeat decide equality. Defined.
+
+Definition amem (a : acfg) (l : list acfg) : bool :=
+  existsb (fun x => if acfg_eq_dec a x then true else false) l.
+
+Lemma amem_In a l : amem a l = true -> In a l.
+Proof.
+  unfold amem. intros H. apply existsb_exists in H as [x [Hin Hx]].
+  destruct (acfg_eq_dec a x); [subst; exact Hin | discriminate].
+Qed.
+
+Fixpoint all_scheds (n : nat) : list (list bool) :=
+  match n with
+  | O => [[]]
+  | S n' => [] :: flat_map (fun s => [true :: s; false :: s]) (all_scheds n')
+  end.
+
+(* each thread has two steps, so four moves suffice to reach everything *)
+Definition areach (reg0 : bool) : list acfg := map (arun (ainit reg0)) (all_scheds 4).
+
+Lemma areach_closed_check reg0 :
+  forallb (fun c => amem (astep c true) (areach reg0) && amem (astep c false) (areach reg0)) (areach reg0) = true.
+Proof. destruct reg0; vm_compute; reflexivity. Qed.
+
+Lemma areach_closed reg0 c b : In c (areach reg0) -> In (astep c b) (areach reg0).
+Proof.
+  intros Hin. pose proof (areach_closed_check reg0) as H.
+  rewrite forallb_forall in H. specialize (H c Hin). apply andb_true_iff in H as [Ht Hf].
+  destruct b; apply amem_In; assumption.
+Qed.
+
+Lemma arun_in reg0 sched : forall c, In c (areach reg0) -> In (arun c sched) (areach reg0).
+Proof.
+  induction sched as [|b sched IH]; intros c Hin; simpl; auto. apply IH, areach_closed, Hin.
+Qed.
+
+Lemma ainit_in reg0 : In (ainit reg0) (areach reg0).
+Proof. left. reflexivity. Qed.
+
+Definition adone (c : acfg) : bool :=
+  match a_a c, a_b c with ADone, ADone => true | _, _ => false end.
+(* exactly one of streams 1, 2 holds the path and is live; the other and stream 0 are closed *)
+Definition agood (c : acfg) : bool :=
+  let s := a_s c in
+  match a_hd s with
+  | Some S1 => a_l1 s && negb (a_l2 s) && negb (a_l0 s)
+  | Some S2 => a_l2 s && negb (a_l1 s) && negb (a_l0 s)
+  | _ => false
+  end.
+
+Lemma areach_good_check reg0 :
+  forallb (fun c => implb (adone c) (agood c)) (areach reg0) = true.
+Proof. destruct reg0; vm_compute; reflexivity. Qed.
+
+Lemma arace_good reg0 sched :
+  adone (arun (ainit reg0) sched) = true -> agood (arun (ainit reg0) sched) = true.
+Proof.
+  intros Hd. pose proof (areach_good_check reg0) as H. rewrite forallb_forall in H.
+  specialize (H _ (arun_in reg0 sched _ (ainit_in reg0))). rewrite Hd in H. exact H.
+Qed.
+
+(* for every schedule after which both publishers have finished: exactly one of streams 1 / 2 is
+   registered under the path and is live, the other one has been closed, stream 0 is closed, and
+   the registry has the single entry *)
+Theorem regist_race_one_live : forall (p : bytes) (h0 h1 h2 reg0 : bool) (sched : list bool),
+  let c := race_run (race_init p h0 h1 h2 reg0) sched in
+  c_a c = PDone -> c_b c = PDone ->
+  exists w l, ((w = 1 /\ l = 2) \/ (w = 2 /\ l = 1))%nat /\
+    g_map (c_g c) = [(p, w)] /\
+    st_live (sget (c_g c) w) = true /\
+    st_live (sget (c_g c) l) = false /\
+    st_live (sget (c_g c) 0) = false.
+Proof.
+  intros p h0 h1 h2 reg0 sched c. unfold c.
+  rewrite init_conc, run_conc. intros Ha Hb.
+  pose proof (arace_good reg0 sched) as Hg.
+  destruct (arun (ainit reg0) sched) as [[hd l0 l1 l2] pa pb].
+  simpl in Ha, Hb.
+  assert (Hd : adone {| a_s := {| a_hd := hd; a_l0 := l0; a_l1 := l1; a_l2 := l2 |}; a_a := pa; a_b := pb |} = true).
+  { destruct pa; try discriminate Ha. destruct pb; try discriminate Hb. reflexivity. }
+  specialize (Hg Hd). unfold agood in Hg. simpl in Hg.
+  destruct hd as [[]|]; try discriminate Hg;
+    apply andb_true_iff in Hg as [Hg H0]; apply andb_true_iff in Hg as [Hw Hl];
+    apply negb_true_iff in H0; apply negb_true_iff in Hl; subst.
+  - exists 1%nat, 2%nat. cbn. auto.
+  - exists 2%nat, 1%nat. cbn. auto.
+Qed.
+
+(* the hypotheses are satisfiable: e.g. A runs to completion, then B *)
+Lemma regist_race_finishes : forall (p : bytes) (h0 h1 h2 reg0 : bool),
+  let c := race_run (race_init p h0 h1 h2 reg0) [true; true; false; false] in
+  c_a c = PDone /\ c_b c = PDone.
+Proof.
+  intros p h0 h1 h2 reg0 c. unfold c. rewrite init_conc, run_conc. destruct reg0; vm_compute; auto.
+Qed.
+
+(* --- the code before the repair: Load, and later Store + retire of the stream that was loaded --- *)
+Inductive opc := OStart | OLoaded (old : option nat) | ODone.
+
+(* the part of GRegist after the Load *)
+Definition reg_store_retire (V : rvariant) (g : rstate) (i : nat) (r : option nat) : rstate :=
+  let g1 := {| g_map := mstore (g_map g) (st_path (sget g i)) i; g_streams := g_streams g |} in
+  match r with
+  | Some j =>
+      if Nat.eqb i j then g else
+      let old := sget g1 j in
+      if consumers old <=? 0 then close_stream V g1 j
+      else sset g1 j {| st_path := st_path old; st_live := st_live old; st_rtp := st_rtp old;
+                        st_flv := st_flv old; st_retire := true; st_hls := st_hls old |}
+  | None => g1
+  end.
+
+Lemma load_store_is_regist V g i :
+  (i <? length (g_streams g))%nat = true ->
+  reg_store_retire V g i (mlookup (g_map g) (st_path (sget g i))) = fst (gstep V g (GRegist i)).
+Proof.
+  intros Hi. unfold gstep, reg_store_retire. rewrite Hi. simpl.
+  destruct (mlookup (g_map g) (st_path (sget g i))) as [j|]; [|reflexivity].
+  destruct (Nat.eqb i j); [reflexivity|].
+  destruct (consumers _ <=? 0); reflexivity.
+Qed.
+
+Definition otstep (g : rstate) (i : nat) (c : opc) : option (rstate * opc) :=
+  match c with
+  | OStart => Some (g, OLoaded (mlookup (g_map g) (st_path (sget g i))))
+  | OLoaded r => Some (reg_store_retire roriginal g i r, ODone)
+  | ODone => None
+  end.
+
+Record ocfg := { o_g : rstate; o_a : opc; o_b : opc }.
+
+Definition orace_step (c : ocfg) (b : bool) : ocfg :=
+  if b then
+    match otstep (o_g c) 1 (o_a c) with
+    | Some (g', a') => {| o_g := g'; o_a := a'; o_b := o_b c |}
+    | None => c
+    end
+  else
+    match otstep (o_g c) 2 (o_b c) with
+    | Some (g', b') => {| o_g := g'; o_a := o_a c; o_b := b' |}
+    | None => c
+    end.
+Definition orace_run (c : ocfg) (sched : list bool) : ocfg := fold_left orace_step sched c.
+Definition orace_init (p : bytes) (h0 h1 h2 reg0 : bool) : ocfg :=
+  {| o_g := c_g (race_init p h0 h1 h2 reg0); o_a := OStart; o_b := OStart |}.
+
+(* D6: A loads, B loads (both see stream 0), A stores and retires 0, B stores and retires 0:
+   stream 1 is overwritten, stays live and is registered nowhere — two live streams for one path *)
+Example regist_race_leak_refuted :
+  exists sched,
+    let c := orace_run (orace_init [47;97] false false false true) sched in
+    o_a c = ODone /\ o_b c = ODone /\
+    g_map (o_g c) = [([47;97], 2%nat)] /\
+    st_live (sget (o_g c) 1) = true /\ st_live (sget (o_g c) 2) = true /\
+    st_live (sget (o_g c) 0) = false.
+Proof. exists [true; false; true; false]. vm_compute. auto 10. Qed.
+
+(* ------------------------------------------------------------------ *)
+(* 6. non-vacuity: a well-formed history with three spellings of one path, a replacement of a stream
+   that still has a consumer, the unregistration of the retired stream, lookups, counts and the
+   idle close *)
+Definition example_hist : list gop :=
+  [ GNew [47;97] true;                     (* stream 0 on "/a" *)
+    GRegist 0;
+    GAttach 0 false;                       (* an RTP consumer *)
+    GNew [32;47;65] false;                 (* stream 1 on " /A" -> "/a" *)
+    GGet [65];                             (* "A" *)
+    GRegist 1;                             (* replaces 0, which keeps its consumer and is retired *)
+    GGet [47;97];
+    GCount; GList;
+    GUnregist 0;                           (* the retired stream: its successor must stay *)
+    GGet [47;47;120;47;46;46;47;65];       (* "//x/../A" *)
+    GCount;
+    GIdle 1 true;                          (* no consumers, no HLS: closed *)
+    GGet [47;97];
+    GCount; GList ].
+
+Example example_hist_ok :
+  hist_wf sinit example_hist = true /\
+  snd (grun rfixed rinit example_hist) = srun sinit example_hist /\
+  srun sinit example_hist =
+    [ RUnit; RUnit; RUnit; RUnit; RGet (Some 0%nat); RUnit; RGet (Some 1%nat);
+      RCount 1 0; RList [[47;97]]; RUnit; RGet (Some 1%nat); RCount 1 0;
+      RIdle true; RGet None; RCount 0 0; RList [] ].
+Proof. vm_compute. auto. Qed.
